@@ -76,6 +76,10 @@ class Stats(object):
         return out
 
 
+class _StopShrink(BaseException):
+    pass
+
+
 class Violation(Exception):
     def __init__(self, kind, detail=None):
         super(Violation, self).__init__('%s: %s' % (kind, detail))
@@ -115,8 +119,9 @@ def drive(strategy, run_case, max_examples, seed, time_budget=None,
                 return
         else:
             state['after_fail'] += 1
-            if state['after_fail'] > shrink_budget and k != state['best_key']:
-                return
+            if state['after_fail'] > shrink_budget:
+                # bounded shrinking: keep the best failing case found so far
+                raise _StopShrink()
         state['runs'] += 1
         viol = run_case(case)
         if viol:
@@ -131,6 +136,8 @@ def drive(strategy, run_case, max_examples, seed, time_budget=None,
     try:
         test()
     except Violation:
+        pass
+    except _StopShrink:
         pass
     except hypothesis.errors.Flaky as e:
         if state['best'] is None:
